@@ -64,6 +64,17 @@ def programs(ctx):
                 for m in (MODES if not quick else MODES[k % 2::2]):
                     p.quantize(1, 2, m, 3)
             progs.append(p.d())
+    # an explicitly requested mode wins over whatever default mode is configured (ties, both representations)
+    for dm in MODES:
+        p = Prog('c13m-' + dm)
+        p.setmode(dm)
+        p.make(2, 'A', F(1), 'a')
+        for tie in (F(5, 2), F(-5, 2), F(1, 2), F(7, 2), F(-1, 2), F(9, 4), F(-9, 4)):
+            for rep in ('frac', 'dec'):
+                p.make(1, 'A', tie, 'a', rep)
+                for m in MODES:
+                    p.quantize(1, 2, m, 3)
+        progs.append(p.d())
     # the same value held in different units, quantized one after the other with the same quantum and mode: each
     # result is in the called quantity's unit (nothing carries over from an equal quantity)
     for (q, qu) in ((F(1), 'ka'), (F(1, 2), 'a'), (F(3), 'ha')):
